@@ -376,6 +376,12 @@ func (s *FileSystemSigner) loadKeys(passphrase []byte) error {
 	}
 
 	// Set the keys
+	// The stored public key is not authenticated: it must belong to the decrypted private key,
+	// otherwise the signer would report a key its signatures do not verify under.
+	if !privKey.GetPublic().Equals(pubKey) {
+		return fmt.Errorf("public key in key file does not match the private key")
+	}
+
 	s.privateKey = privKey
 	s.publicKey = pubKey
 
